@@ -1,7 +1,7 @@
 """Scenario specs (plain JSON data) -> capture file + key log + ground truth.
 
 A scenario is a dict
-    {"conns": [conn spec, ...], "order": [ints] | None, "tseed": int, "t0": int (us), "container": {...}, "keys": {...}, "opts": {...}}
+    {"conns": [conn spec, ...], "order": [ints] | None, "tseed": int, "t0": int (us), "times": None | "zero" | "zero_all" | "disorder", "container": {...}, "keys": {...}, "opts": {...}}
 conn spec kinds: "tls" (tlsref.TlsConn + "ep" + "tcp"), "quic" (quicref.QuicConn + "ep"), "noise".
 Everything random is derived from integers that are part of the spec, so a spec replays exactly.
 """
@@ -436,18 +436,34 @@ def merge_packets(per_conn, order):
     return out
 
 
-def assign_times(pkts, tseed=0, t0=T0):
+def assign_times(pkts, tseed=0, t0=T0, times=None):
+    """capture times: strictly increasing from an epoch value (default); times = "zero": relative times, the first packet at exactly 0;
+    "zero_all": a capture with stripped times (every packet at 0); "disorder": file order is not time order - some packets carry a time
+    slightly before that of an earlier packet (several interfaces / merged captures), all times still distinct"""
     rnd = random.Random(tseed)
     t = t0 + rnd.randrange(0, 1_000_000)
+    if times in ("zero", "zero_all"):
+        t = 0
     for p in pkts:
         p.ts = t
-        t += rnd.randrange(2, 4000) if tseed else 1000
+        if times != "zero_all":
+            t += rnd.randrange(2, 4000) if tseed else 1000
+    if times == "disorder" and len(pkts) > 2:
+        r2 = random.Random(tseed * 7919 + 13)
+        used = {p.ts for p in pkts}
+        for i in range(2, len(pkts)):
+            if r2.randrange(4) == 0:
+                j = r2.randrange(1, i)
+                cand = pkts[j].ts - 1
+                if cand not in used:
+                    used.add(cand)
+                    pkts[i].ts = cand
     return pkts
 
 
 def build(spec):
     b = build_conns(spec)
-    b.pkts = assign_times(merge_packets(b.per_conn, spec.get("order")), spec.get("tseed", 0), spec.get("t0", T0))
+    b.pkts = assign_times(merge_packets(b.per_conn, spec.get("order")), spec.get("tseed", 0), spec.get("t0", T0), spec.get("times"))
     return b
 
 
